@@ -1,14 +1,16 @@
 (* C48 -- SuperSpeed control requests are decoded and answered exactly.
 
    Part 1, SuperSpeedSetupDecoder (Model/SsSetupDec.v).
-     sd_step true   the property-satisfying decoder (the code of /repo with findings/C48-short-setup-packet.diff);
+     sd_step true   the property-satisfying decoder (the code of /repo with findings/C48-short-setup-packet.diff and
+                    findings/C48-abort-on-first-word.diff);
      sd_step false  the code as it stands;
      ssd_step       the specification: accumulate the (data, valid-mask) words of the packet being delivered and the
                     header's setup flag; when rx_good arrives report iff  is_setup_packet flag words, i.e. the flag is
                     set and the packet consists of exactly two full words (eight bytes); fields = those bytes, LE;
      sd_env_ok      the packet-delivery environment: first/last mark the ends of a packet, only the last word may be
-                    partial, one verdict (rx_good xor rx_bad) after the last word or rx_bad as abort, never a word
-                    and a verdict in the same cycle.
+                    partial, one verdict (rx_good xor rx_bad) after the last word or rx_bad as abort; rx_good never
+                    shares a cycle with a word, rx_bad may (DataPacketReceiver aborts on a K-symbol in the payload by
+                    strobing packet_bad in the very cycle it presents that word: first, middle or last word).
    Part 2, GetDescriptorHandler (Model/SsDesc.v): hd_step descs over C27's specification of the generators;
      hd_xfers = the (valid mask, first, last, payload, tx_length) tuples handed over on tx; hd_expected c ml = the
      beats of ConstGen.answer c 0 ml with tx_length = min(ml, len) (closed form: C27_answer_is_requested_slice). *)
